@@ -5,7 +5,8 @@ module holding the property's theorems, and the wording that goes into the evide
 PROPS = {
     "C01": dict(fams=[("encgrid", 0, 0), ("s1", 1500, 60000), ("sm", 800, 30000), ("cs", 900, 30000), ("he", 500, 20000)],
                 real=[("chain", 140, 6000)]),
-    "C02": dict(fams=[("seqgrid", 40, 2000), ("tbsgrid", 0, 0), ("encgrid", 0, 0), ("v1", 2000, 100000), ("vm", 1000, 50000), ("s1", 800, 40000), ("sm", 500, 20000)]),
+    "C02": dict(fams=[("seqgrid", 40, 2000), ("tbsgrid", 0, 0), ("encgrid", 0, 0), ("v1", 2000, 100000), ("vm", 1000, 50000), ("s1", 800, 40000), ("sm", 500, 20000)],
+                real=[("bigprot", 1, 1)]),
     "C03": dict(fams=[("tbsgrid", 0, 0), ("v1", 2500, 100000), ("vm", 1000, 50000), ("cs", 600, 30000), ("ecgrid", 0, 0), ("he", 600, 20000)],
                 real=[("tamper", 200, 8000)]),
     "C04": dict(fams=[("seqgrid", 40, 2000), ("alggrid", 0, 0), ("s1", 300, 20000), ("he", 200, 5000)]),
@@ -13,11 +14,11 @@ PROPS = {
     "C06": dict(fams=[("depthgrid", 0, 0), ("dec", 2500, 300000), ("use", 2500, 200000), ("keygrid", 600, 60000), ("hist", 400, 30000),
                       ("dechdr", 800, 50000), ("hacc", 600, 30000)]),
     "C07": dict(fams=[("tbsgrid", 0, 0), ("depthgrid", 0, 0), ("v1", 3000, 200000), ("vm", 1500, 100000), ("dec", 1500, 100000), ("reenc", 500, 20000)],
-                real=[("foreign", 100, 5000)]),
+                real=[("foreign", 100, 5000), ("bigprot", 1, 1)]),
     "C08": dict(fams=[("encgrid", 0, 0), ("hdrgrid", 0, 0), ("depthgrid", 0, 0), ("enc", 3000, 300000), ("s1", 800, 40000), ("sm", 400, 20000), ("cs", 400, 20000),
                       ("keyrt", 200, 3000), ("he", 300, 10000)]),
     "C09": dict(fams=[("seqgrid", 40, 2000), ("tbsgrid", 0, 0), ("reenc", 4000, 400000)]),
-    "C10": dict(fams=[("tbsgrid", 0, 0), ("cs", 4000, 300000)]),
+    "C10": dict(fams=[("tbsgrid", 0, 0), ("cs", 4000, 300000)], real=[("bigprot", 1, 1)]),
     "C11": dict(fams=[("signgrid", 0, 0), ("seqgrid", 20, 1000), ("sm", 600, 60000), ("vm", 600, 60000)]),
     "C12": dict(fams=[("he", 3000, 200000)]),
     "C13": dict(fams=[("seqgrid", 40, 2000), ("hdrgrid", 0, 0), ("enc", 1000, 100000), ("dechdr", 1000, 100000), ("hacc", 400, 20000)]),
